@@ -171,6 +171,9 @@ def panic_sites(prog, fn, include_calls=True):
                 out.append(("call", "str-index", i, sp))
             elif re.search(r"core::slice::index::<impl core::ops::index::Index(Mut)?<I> for \[T\]>::index|<alloc::vec::Vec<T, A> as core::ops::index::Index(Mut)?<I>>::index", cp):
                 out.append(("call", "slice-index", i, sp))
+            elif re.search(r"ops::index::Index(Mut)?<", cp) and re.search(r"::index(_mut)?$", cp) and re.match(r"^<?(core|alloc|std)::", cp):
+                # arrays (`buf[..n]`), VecDeque, BTreeMap / HashMap (`map[&key]`): every std Index impl panics on a missing element
+                out.append(("call", "slice-index", i, sp))
             elif cp in ("core::panicking::panic", "core::panicking::panic_fmt", "core::panicking::assert_failed", "std::rt::begin_panic", "core::panicking::panic_explicit"):
                 out.append(("call", "panic", i, sp))
             elif MAY_PANIC.search(cp):
